@@ -24,10 +24,14 @@ import (
 // ---------------------------------------------------------------- hook process
 
 type hook struct {
-	cmd    *exec.Cmd
-	in     io.WriteCloser
-	out    *bufio.Reader
-	stderr *bytes.Buffer // race builds only
+	cmd      *exec.Cmd
+	in       io.WriteCloser
+	out      *bufio.Reader
+	stderr   *bytes.Buffer // race builds only
+	bin      string
+	race     bool
+	lines    chan string
+	restarts int
 }
 
 var (
@@ -80,18 +84,56 @@ func startHook(bin string, race bool) *hook {
 		fmt.Fprintln(os.Stderr, "cannot start hook driver:", err)
 		os.Exit(3)
 	}
-	return &hook{cmd: c, in: in, out: bufio.NewReaderSize(out, 1<<20), stderr: eb}
+	h := &hook{cmd: c, in: in, out: bufio.NewReaderSize(out, 1<<20), stderr: eb, bin: bin, race: race}
+	h.lines = make(chan string, 4)
+	go func(rd *bufio.Reader, ch chan string) {
+		for {
+			rep, err := rd.ReadString('\n')
+			if err != nil {
+				close(ch)
+				return
+			}
+			ch <- strings.TrimRight(rep, "\n")
+		}
+	}(h.out, h.lines)
+	return h
 }
 
+// hookCallTimeout bounds every wait on the driver child (its own quiescence wait is 10 s).
+const hookCallTimeout = 25 * time.Second
+
+// call sends one command and waits for the reply — at most hookCallTimeout: a child that does
+// not answer (a goroutine of the code under test spins or never parks) is killed and replaced,
+// and the caller gets "hook-timeout".
 func (h *hook) call(line string) string {
 	if _, err := io.WriteString(h.in, line+"\n"); err != nil {
-		return "hook-error: " + err.Error()
+		h.restart()
+		return "hook-timeout (write: " + err.Error() + ")"
 	}
-	rep, err := h.out.ReadString('\n')
-	if err != nil {
-		return "hook-error: " + err.Error()
+	select {
+	case rep, ok := <-h.lines:
+		if !ok {
+			h.restart()
+			return "hook-timeout (the driver child exited)"
+		}
+		return rep
+	case <-time.After(hookCallTimeout):
+		h.restart()
+		return fmt.Sprintf("hook-timeout (no reply to %q within %s)", line, hookCallTimeout)
 	}
-	return strings.TrimRight(rep, "\n")
+}
+
+// restart kills the child and starts a fresh one in its place.
+func (h *hook) restart() {
+	h.cmd.Process.Kill()
+	h.in.Close()
+	go h.cmd.Wait()
+	n := startHook(h.bin, h.race)
+	h.cmd, h.in, h.out, h.lines = n.cmd, n.in, n.out, n.lines
+	if n.stderr != nil {
+		h.stderr = n.stderr
+	}
+	h.restarts++
 }
 
 func (h *hook) close() {
@@ -127,6 +169,10 @@ type termStatus struct {
 func parseTermStatus(rep string) termStatus {
 	st := termStatus{raw: rep}
 	f := strings.Fields(rep)
+	if strings.HasPrefix(rep, "hook-timeout") || strings.HasPrefix(rep, "not-quiescent") {
+		st.state = "never-rests"
+		return st
+	}
 	if len(f) < 5 || f[0] != "ok" {
 		st.state = "error"
 		return st
@@ -208,6 +254,12 @@ func runTerm(h *hook, c termCase) (obs string, oracle string, osig string, violA
 				return fmt.Sprintf("exited %s %d %s", sig, consumed, st.n), oracle, osig, violAt
 			}
 			return fmt.Sprintf("returned %s %d %s", sig, consumed, st.n), oracle, osig, violAt
+		}
+		if st.state == "never-rests" {
+			if oracle == "" {
+				oracle, osig = "termMonitor.wait (or a sender) neither returns nor parks within the bounded wait: "+st.raw, "wait-never-completes"
+			}
+			return "error " + st.raw, oracle, osig, violAt
 		}
 		if st.state != "waiting" {
 			return "error " + st.raw, oracle, osig, violAt
@@ -658,6 +710,7 @@ type relayState struct {
 	ended   map[string]string // copier -> class of its terminal event
 	wfail   map[string]bool
 	hard    map[string]bool // the copier's io.Copy must have returned (nothing but closes may follow)
+	dead    bool            // the driver child has to be replaced after this run
 	first   string          // class of the first terminal event
 	items   []string
 	events  []string
@@ -684,9 +737,20 @@ func (s *relayState) viol(sig, desc string) {
 // property oracle on the new events.
 func (s *relayState) absorb(cmd string, rep string) bool {
 	f := strings.SplitN(rep, " ", 2)
+	if strings.HasPrefix(rep, "hook-timeout") || strings.HasPrefix(rep, "not-quiescent") {
+		// property: as soon as either side ends both connections are closed and the relay returns —
+		// here the relay's goroutines never even reach a state the script could act on
+		s.viol("copyloop-never-returns", fmt.Sprintf("after command %q the goroutines of copyLoop did not come to rest (parked in a conn operation, or finished) within the bounded wait: %s", cmd, rep))
+		s.dead = true
+		return false
+	}
 	if len(f) < 2 || (f[0] != "ok" && f[0] != "noop") {
 		s.viol("hook-driver-error", "command "+cmd+": "+rep)
 		return false
+	}
+	if i := strings.Index(rep, " stuck="); i >= 0 {
+		s.viol("copyloop-never-returns", fmt.Sprintf("after command %q a copier goroutine is parked for ever in a channel operation of copyLoop itself (not in a conn operation the script could complete): copyLoop cannot return [%s]", cmd, strings.TrimSpace(f[1][strings.Index(f[1], ";")+1:])))
+		s.dead = true
 	}
 	parts := strings.SplitN(f[1], ";", 2)
 	evs := strings.Fields(parts[0])
@@ -931,6 +995,19 @@ func (s *relayState) finish(leaf bool) {
 	}
 }
 
+// endRelay tears the scenario down; a child with goroutines that will never finish is replaced.
+func endRelay(w *worker, s *relayState) {
+	if s.dead {
+		w.h.restart() // goroutines that will never finish: no point in asking for a teardown
+		return
+	}
+	if strings.HasPrefix(w.h.call("relay.end"), "hook-timeout") {
+		return // already replaced
+	}
+	// (a "stuck" answer without an earlier finding cannot happen: stuck copiers are reported
+	// by every status line)
+}
+
 type worker struct {
 	h *hook
 	d *vlib.Driver
@@ -985,10 +1062,7 @@ func runRelay(w *worker, sc *relayScenario, name string, cmds []string, leafHint
 		}
 	}
 	s.finish(leaf)
-	end := w.h.call("relay.end")
-	if !strings.HasPrefix(end, "ok") {
-		s.viol("relay-stuck-at-teardown", "after failing every parked operation copyLoop still does not return: "+end)
-	}
+	endRelay(w, s)
 	return s, full, alts, leaf
 }
 
@@ -1054,7 +1128,7 @@ func exploreAll(r *vlib.Run, ws []*worker, sc *relayScenario, maxLeaves int) (le
 				for len(stack) == 0 && busy > 0 {
 					cond.Wait()
 				}
-				if len(stack) == 0 || leaves >= maxLeaves {
+				if len(stack) == 0 || leaves >= maxLeaves || r.NumViolations() > 12 {
 					if len(stack) > 0 {
 						complete = false
 					}
@@ -1111,6 +1185,11 @@ func scenarios(thorough bool) []*relayScenario {
 		mk("envfirst-2+1-eof-eof", [][]byte{a1, a2}, [][]byte{b1}, "eof", "eof", nil, false),
 		mk("envfirst-1+2-err-werr", [][]byte{a1}, [][]byte{b1, b2}, "err", "", map[string]string{"ba": "1:err:0"}, false),
 		mk("envfirst-2+1-faults", [][]byte{a1, a2}, [][]byte{b1}, "", "eof", map[string]string{"ab": "1:err:2", "ba": "0:short:1"}, false),
+		// both directions fail with genuine errors: a read error on one side while the opposite
+		// copier is parked in Write and that Write fails too; both sides failing back to back
+		mk("werr-while-other-side-errs", [][]byte{a1}, nil, "", "err:opreset", map[string]string{"ab": "0:err:1:oppipe"}, false),
+		mk("both-werr", [][]byte{a1}, [][]byte{b1}, "", "", map[string]string{"ab": "0:err:0:opreset", "ba": "0:err:1"}, false),
+		mk("envfirst-err-both-with-data", [][]byte{a1, a2}, [][]byte{b1}, "err:opreset", "err:optimeout", nil, false),
 		// the same on conns that have CloseWrite/CloseRead, as *net.TCPConn has
 		mk("hc-idle-eof", nil, nil, "eof", "", nil, false),
 		mk("hc-idle-eof-both", nil, nil, "eof", "eof", nil, false),
@@ -1214,9 +1293,7 @@ func randomRun(r *vlib.Run, w *worker, rng *vlib.Rng, i int) {
 		}
 	}
 	s.finish(leaf)
-	if end := w.h.call("relay.end"); !strings.HasPrefix(end, "ok") {
-		s.viol("relay-stuck-at-teardown", "after failing every parked operation copyLoop still does not return: "+end)
-	}
+	endRelay(w, s)
 	r.Count("relay.random.maxchunk", func() string {
 		m := 0
 		for _, c := range []string{"A", "B"} {
